@@ -358,7 +358,9 @@ Qed.
 Lemma step_spec_quiet e o s : quiet s -> quiet (fst (step true e o s)).
 Proof.
   intros Hq. unfold step. destruct (alive s) eqn:Hal; cbn [negb]; [|exact Hq].
-  destruct o as [t|t| | |z inner].
+  destruct o as [t|t| | |z inner|prev t].
+  6:{ pose proof (connect_raw_quiet true e t s Hq Hal) as [H _].
+      destruct (connect_raw true e t s). exact H. }
   - pose proof (connect_raw_quiet true e t s Hq Hal) as [H _].
     destruct (connect_raw true e t s). exact H.
   - pose proof (connect_ind_quiet e t s Hq Hal) as H.
@@ -401,9 +403,9 @@ Lemma step_prefix_eq_spec e o s :
   quiet s -> match o with ODuring _ _ => False | _ => True end -> step false e o s = step true e o s.
 Proof.
   intros Hq Ho. unfold step. destruct (alive s); cbn [negb]; [|reflexivity].
-  destruct o; try reflexivity; [|contradiction].
-  unfold connect_raw. destruct (check_server s t); [|reflexivity].
-  rewrite set_flight_none_id by apply Hq. reflexivity.
+  destruct o; try reflexivity; try contradiction;
+    (unfold connect_raw; destruct (check_server s t); [|reflexivity];
+     rewrite set_flight_none_id by apply Hq; reflexivity).
 Qed.
 
 (* ----- observations of quiescent states satisfy the property's state predicate ----- *)
@@ -907,7 +909,31 @@ Proof.
     set (b := observe n r0 s) in *. set (a := observe n [RSkipped] s) in *.
     destruct o; cbn [op_ok]; rewrite Hr, ?Hb, Hs; cbn; try reflexivity.
     now rewrite orb_true_r. }
-  destruct o as [t|t| | |z inner].
+  destruct o as [t|t| | |z inner|prev t].
+  6:{ (* Connect on a stale request object: the snapshot is not looked at *)
+    unfold connect_raw. destruct (check_server s t) as [r|] eqn:Ec.
+    + destruct (check_some_quiet s t r Hq Ec) as [-> Hsrv]. cbn [fst snd].
+      pose proof (same_state_obs n r0 [RAlready] s s Hq Hq eq_refl eq_refl) as Hs.
+      assert (Hr : o_res (observe n [RAlready] s) = [RAlready]) by reflexivity.
+      assert (Hc : onat_is (o_cur (observe n r0 s)) t = true) by (rewrite <- Hsrv; apply onat_is_map).
+      set (b := observe n r0 s) in *. set (a := observe n [RAlready] s) in *.
+      cbn [op_ok]. rewrite Hr, Hc, Hs. reflexivity.
+    + pose proof (attempt_cases e t s Hq Hal) as H.
+      destruct (attempt e t s) as [s1 oc]. cbn [fst snd] in *.
+      destruct H as (Hq1 & Hal1 & [(-> & c & Hc & Hct) | (Ho & Hcur & HfamA)]).
+      * cbn [res_of op_ok observe o_res o_cur]. rewrite Hc. cbn. subst t. apply Nat.eqb_refl.
+      * assert (Hgoal :
+          same_state (observe n r0 s) (observe n [res_of oc] s1)
+          || (match fam e with FamB => true | FamA => false end &&
+              match o_cur (observe n [res_of oc] s1) with None => o_alive (observe n [res_of oc] s1) | Some _ => false end) = true).
+        { destruct Hcur as [Hsame|Hnone].
+          - rewrite (same_state_obs n r0 [res_of oc] s s1 Hq Hq1) by congruence. reflexivity.
+          - destruct (fam e) eqn:Ef.
+            + rewrite (same_state_obs n r0 [res_of oc] s s1 Hq Hq1) by (try apply eq_sym, HfamA; congruence).
+              reflexivity.
+            + cbn [observe o_cur o_alive]. rewrite Hnone. cbn [option_map]. rewrite Hal1, Hal.
+              now rewrite orb_true_r. }
+        destruct oc; [congruence| |]; cbn [res_of op_ok o_res]; cbn [observe o_res]; exact Hgoal. }
   - (* Connect *)
     unfold connect_raw. destruct (check_server s t) as [r|] eqn:Ec.
     + destruct (check_some_quiet s t r Hq Ec) as [-> Hsrv]. cbn [fst snd].
@@ -1033,3 +1059,36 @@ Proof.
   cbn [observe o_cur o_alive]. rewrite login_ok. cbn [andb].
   apply (run_ops_spec_history_ok e n ops _ [RNone] (login_quiet e)).
 Qed.
+
+(* ---------- E. stale request objects ---------- *)
+
+(* what a request does depends only on the player's state when it runs, not on when the request object
+   was created (its previousServer snapshot) *)
+Theorem outcome_independent_of_creation_time strict e prev prev' t s :
+  step strict e (OConnectSnap prev t) s = step strict e (OConnectSnap prev' t) s /\
+  step strict e (OConnectSnap prev t) s = step strict e (OConnect t) s.
+Proof. split; reflexivity. Qed.
+
+Theorem history_independent_of_creation_time e n :
+  forall ops ops',
+    Forall2 (fun o o' => o = o' \/ exists p p' t, o = OConnectSnap p t /\ (o' = OConnectSnap p' t \/ o' = OConnect t)) ops ops' ->
+    forall s, run_ops true e n ops s = run_ops true e n ops' s.
+Proof.
+  induction 1 as [|o o' r r' Ho _ IH]; intros s; [reflexivity|].
+  cbn [run_ops].
+  assert (Hs : step true e o s = step true e o' s).
+  { destruct Ho as [->|(p & p' & t & -> & [->| ->])]; reflexivity. }
+  rewrite Hs. destruct (step true e o' s) as [s1 rs]. now rewrite IH.
+Qed.
+
+(* a variant keyed on the snapshot (NOT the code) would depend on it: the same switch from the same
+   state tears the old connection down with a fresh snapshot and leaves two live backends and two
+   lists with a snapshot taken before the first join *)
+Theorem keyed_refuted :
+  let fresh_snap := connect_keyed (Some 0) 1 start_st in
+  let stale_snap := connect_keyed None 1 start_st in
+  snd fresh_snap = RSuccess /\ state_ok 3 (observe 3 [RSuccess] (fst fresh_snap)) = true /\
+  snd stale_snap = RSuccess /\ state_ok 3 (observe 3 [RSuccess] (fst stale_snap)) = false /\
+  map c_srv (opened (fst stale_snap)) = [1; 0] /\ lists (fst stale_snap) = [1; 0] /\
+  fst fresh_snap = fst (connect_raw true (mkEnv FamA [0] []) 1 start_st).
+Proof. vm_compute. repeat split; reflexivity. Qed.
